@@ -108,7 +108,9 @@ func (dev *RoachDevice) samplePacket() error {
 	dev.nextS = FrameIndex(header.Nsamp) + FrameIndex(header.Sampnum)
 	dev.nchan = int(header.Nchan)
 	dev.unwrap = make([]*PhaseUnwrapper, dev.nchan)
-	biaslevel := dev.unwrapOpts.calcBiasLevel()
+	// calcBiasLevel assumes that 2^16 (abacoFractionBits) is one ϕ0; for the ROACH 2^roachFractionBits is
+	// one ϕ0, so rescale. (Unscaled, the bias exceeds half a ϕ0 and even a constant signal "unwraps".)
+	biaslevel := dev.unwrapOpts.calcBiasLevel() >> (abacoFractionBits - roachFractionBits)
 	pulseSign := dev.unwrapOpts.PulseSign
 	invertData := false // not implemented for ROACH at this time
 	for i := range dev.unwrap {
